@@ -21,7 +21,7 @@ import time
 import vlib
 import serverlib as sl
 
-THEOREMS = ["C11_versions_monotone", "C11_converges", "C11_stream_is_sequential", "C11_published_files_sequential",
+THEOREMS = ["C11_versions_monotone", "C11_converges", "C11_stream_is_sequential", "C11_published_files_sequential", "C11_protocol_is_source",
             "C11_old_stale"]
 TRUSTED = [
     "Coq 8.16.1 kernel; no axioms (Print Assumptions: closed under the global context)",
@@ -347,7 +347,7 @@ def reorder_holds(k):
 def run(ctx):
     t0 = time.time()
     bindir = vlib.build_harness(True, bins=["lspdrive", "idedump"])
-    fails = vlib.proof_step(ctx, "TG.Props.C11", THEOREMS, ["props/C11.vo"], trusted_base=TRUSTED, translators=[])
+    fails = vlib.proof_step(ctx, "TG.Props.C11", THEOREMS, ["props/C11.vo"], trusted_base=TRUSTED, translators=["t_server"])
     exe = vlib.build_model("server")
     t_setup = time.time() - t0
 
